@@ -113,6 +113,35 @@ Export(T, t) ==
 
 ExportCap(T) == Len(T.nd) - Len(T.free) - 1
 
+(***************************************************************************)
+(* The pinned export (defect D2): before the traversal every arena slot is  *)
+(* scanned, and a slot that "is part of the tree" and whose expiration is   *)
+(* BELOW the time is removed.  Kept as a named alternative so that the      *)
+(* counter-examples stay one TLC run away (AsCodedD2.cfg).  A freed slot    *)
+(* keeps its stale links and entity, exactly as in the code.                *)
+(***************************************************************************)
+RECURSIVE PartWalk(_, _, _, _, _)
+PartWalk(T, index, prev, cursor, fuel) ==           \* the loop of is_part_of_the_tree
+  IF cursor = 0 \/ cursor = E \/ cursor = index \/ fuel = 0 THEN prev = T.root
+  ELSE LET pi == N(T, cursor).p IN
+       IF pi = E THEN cursor = T.root
+       ELSE IF N(T, pi).l # cursor /\ N(T, pi).r # cursor THEN FALSE
+       ELSE PartWalk(T, index, cursor, pi, fuel - 1)
+IsPartOfTheTree(T, index) == PartWalk(T, index, index, N(T, index).p, Len(T.nd) + 1)
+
+\* le = FALSE: the pinned comparison `expiration < time` (D2a);  le = TRUE: a hypothetical one-character
+\* repair `<=`, which leaves the double removal of freed slots (D2b) and the unexamined moved-in
+\* successor (D2c) - the reason the actual repair drops the purge altogether
+RECURSIVE ExpireAllAsCoded(_, _, _, _)
+ExpireAllAsCoded(T, t, i, le) ==
+  IF i >= Len(T.nd) THEN T
+  ELSE IF IsPartOfTheTree(T, i) /\ (IF le THEN N(T, i).e <= t ELSE N(T, i).e < t)
+       THEN ExpireAllAsCoded(DeleteIndex(T, i), t, i + 1, le)
+  ELSE ExpireAllAsCoded(T, t, i + 1, le)
+
+\* the traversal without the liveness test (time -1: every stored entry is pushed)
+ExportAsCoded(T, t, le) == Export(ExpireAllAsCoded(T, t, 1, le), -1)
+
 \* the pinned capacity estimate (defect D5): 8 << (2 * black height of the left spine)
 RECURSIVE LeftSpineBlack(_, _)
 LeftSpineBlack(T, i) == IF N(T, i).l = E THEN 0
